@@ -101,17 +101,28 @@ def handle_error_items(tier):
             pows.append(x)
             return POW10(x)
 
+        reinits = []
+
         def c_reinit(ex, st, args):
             f = ex.fresh("reinit_flag", I)
             t = ex.ev(args[1], st)
-            st.v["__clock"] = z3.ToReal(t) if z3.is_int(t) else t
+            t = z3.ToReal(t) if z3.is_int(t) else t
+            # assumed contract of CVodeReInit(mem, t0, y0): on success (flag >= 0) the integrator's clock is t0 and it copies y0 into its
+            # own history AT THE CALL (what is written to the user's array afterwards is not seen; y0 is cv_y_, which wraps ab); on
+            # failure (flag < 0) the integrator is left as it was
+            reinits.append((f, ex.live(st)))
+            st.v["__clock"] = z3.If(f >= 0, t, st.v["__clock"])
+            st.a["__int"] = z3.If(f >= 0, st.a["ab"], st.a["__int"])
             return f
 
         def c_checkflag(ex, st, args):
             a = args[0]
             if a[0] != "id" or not a[1].startswith("ADDR_"):
                 raise CMiniError("CheckFlag argument")
-            return z3.If(st.v[a[1][5:]] < 0, ex.consts["NAUNET_FAIL"], ex.consts["NAUNET_SUCCESS"])
+            # CheckFlag(&flag, name, opt, fp): opt == 1 tests the integer for being negative; opt == 0 tests a POINTER for NULL - applied
+            # to the address of a flag variable it can never fail (the two branches of the rendered CheckFlag are checked below)
+            opt = ex.ev(args[2], st) if len(args) > 2 else z3.IntVal(1)
+            return z3.If(opt == 1, z3.If(st.v[a[1][5:]] < 0, ex.consts["NAUNET_FAIL"], ex.consts["NAUNET_SUCCESS"]), ex.consts["NAUNET_SUCCESS"])
 
         def c_cvode(ex, st, args):
             tout = ex.ev(args[1], st)
@@ -123,7 +134,10 @@ def handle_error_items(tier):
             clock = st.v["__clock"]
             facts.append(z3.If(f >= 0, tp == tout, z3.And(tp >= clock, z3.Or(tp < tout, z3.And(tout <= clock, tp == clock)))))
             outcomes.append((f, tp, tout, clock, ex.live(st)))
-            st.a["ab"] = st.a["ab"] + (tp - clock)      # cv_y_ aliases ab (checked on Solve below)
+            # assumed contract of CVode(mem, tout, yout, &t, CV_NORMAL): the integrator advances ITS OWN state from its clock to the
+            # reached time and writes it to yout = cv_y_, which wraps ab (checked on Solve below)
+            st.a["__int"] = st.a["__int"] + (tp - clock)
+            st.a["ab"] = st.a["__int"]
             st.v[tvar[1][5:]] = tp
             st.v["__clock"] = tp
             return f
@@ -158,7 +172,8 @@ def handle_error_items(tier):
                                   z3.And(stt.v["cvflag"] == S_flag, stt.v["t0"] == S_t0, stt.a["ab"] == S_ab, cl == S_clock),
                                   z3.And(stt.v["cvflag"] >= 0, stt.v["t0"] == cl, cl == POW10(e(k - 1 - (lo_i - 1))), stt.a["ab"] == S_ab + cl - S_clock))
                 broken = z3.And(stt.v["cvflag"] < 0, stt.v["t0"] == cl, S_clock <= cl, cl < POW10(logdt), stt.a["ab"] == S_ab + cl - S_clock)
-                return z3.If(stt.broken, broken, notbroken)
+                # the integrator's own state is the user's array throughout the loop (at entry: the re-initialisation copied it)
+                return z3.And(z3.If(stt.broken, broken, notbroken), stt.a["__int"] == stt.a["ab"])
             base_facts = list(facts)
             # establishment
             ex.obligations.append((f"substep-loop/{tag}/establish", base_facts, z3.Implies(live, inv(new, lo))))
@@ -167,6 +182,7 @@ def handle_error_items(tier):
             h = new.copy()
             h.v["cvflag"], h.v["t0"], h.v["__clock"] = ex.fresh("h_flag", I), ex.fresh("h_t0", R), ex.fresh("h_clock", R)
             h.a["ab"] = ex.fresh("h_ab", R)
+            h.a["__int"] = ex.fresh("h_int", R)
             h.broken = z3.BoolVal(False)
             h.v[var] = k
             nfacts = len(facts)
@@ -185,6 +201,7 @@ def handle_error_items(tier):
             f2, t2, c2, a2, b2 = ex.fresh("x_flag", I), ex.fresh("x_t0", R), ex.fresh("x_clock", R), ex.fresh("x_ab", R), ex.fresh("x_broke", z3.BoolSort())
             out.v["cvflag"], out.v["t0"], out.v["__clock"] = f2, t2, c2
             out.a["ab"] = a2
+            out.a["__int"] = ex.fresh("x_int", R)
             tmp = out.copy()
             tmp.broken = b2
             facts.append(z3.Implies(live, z3.And(inv(tmp, z3.IntVal(hi_i)), z3.simplify(e(z3.IntVal(nsub))) == logdt)))
@@ -194,7 +211,7 @@ def handle_error_items(tier):
             return res
         ex.loop_contracts["step"] = step_loop
         st = cmini.State({"cvflag": cvflag0, "dt": dt0, "t0": t00, "__clock": t00},
-                         {"ab": y0 + t00, "ab_init_": y0, "ab_tmp_": y0})
+                         {"ab": y0 + t00, "ab_init_": y0, "ab_tmp_": y0, "__int": y0 + t00})
         # arrays are represented by their generic element: every array access of the body must be an element-wise
         # copy loop (enforced by cmini.array_copy_loop), so one component stands for all
         ex.ev_idx_scalar = True
@@ -255,6 +272,7 @@ def handle_error_items(tier):
         # the last integrator outcome that was live decides: negative flag at the end => FAIL
         last_flag = fin.v.get("cvflag")
         prove("negative-final-flag-is-failure", z3.Implies(last_flag < 0, fin.retval == FAIL))
+        prove("failing-reinitialisation-is-failure", z3.And(*[z3.Implies(z3.And(lv, f < 0), fin.retval == FAIL) for f, lv in reinits]) if reinits else z3.BoolVal(False))
         prove("unrecoverable-first-flag-is-failure", z3.Implies(z3.Or(cvflag0 == -5, cvflag0 <= -7), fin.retval == FAIL))
         for (x, live) in logs:
             pass
